@@ -41,7 +41,7 @@ def make_case(prop, rng, tier, kind=None):
     if prop == "C12" and rng.random() < 0.35:
         cstyle = "immediate"
     jug = None
-    if rng.random() < (0.4 if prop in ("C06", "C02") else 0.15):
+    if rng.random() < (0.4 if prop in ("C06", "C02", "C04") else 0.15):
         # a consumer that juggles up to two retrieval reservations: takes them in either order, withdraws the older or the younger one,
         # waits in between (cancel paths of the belt stores; the kinematic oracles skip runs in which a retrieval is held over time)
         cstyle = "juggler"
